@@ -18,6 +18,45 @@ pub fn kestrel_bin_checked() -> PathBuf {
     std::env::var_os("KESTREL_BIN_CHECKED").map(PathBuf::from).unwrap_or_else(|| PathBuf::from(format!("{}/harness/target/checked/kestrel", crate::ctx::verif_root())))
 }
 
+/// "Ambient decoys": about every second run of the real binary gets environment entries that the
+/// documentation says are irrelevant for that command line - a KESTREL_KEYRING naming another keyring
+/// (same common names, other keys) when -k is given, a KESTREL_NEW_PASSWORD when the command is not
+/// change-pass, and an unrelated variable whose value is not UTF-8. On a correct tool nothing changes;
+/// every lane of every property thereby also checks that nothing does. KMON_AMBIENT=never|always overrides.
+static AMBIENT_TURN: AtomicU64 = AtomicU64::new(0);
+static AMBIENT_APPLIED: [AtomicU64; 3] = [AtomicU64::new(0), AtomicU64::new(0), AtomicU64::new(0)];
+static AMBIENT_PLAIN: AtomicU64 = AtomicU64::new(0);
+
+pub fn ambient_stats() -> serde_json::Value {
+    serde_json::json!({
+        "runs_without_decoys": AMBIENT_PLAIN.load(Ordering::SeqCst),
+        "runs_with_a_decoy_KESTREL_KEYRING_next_to_-k": AMBIENT_APPLIED[0].load(Ordering::SeqCst),
+        "runs_with_a_decoy_KESTREL_NEW_PASSWORD": AMBIENT_APPLIED[1].load(Ordering::SeqCst),
+        "runs_with_an_unrelated_non_UTF-8_variable": AMBIENT_APPLIED[2].load(Ordering::SeqCst),
+    })
+}
+
+fn decoy_keyring() -> &'static Path {
+    static P: std::sync::OnceLock<PathBuf> = std::sync::OnceLock::new();
+    P.get_or_init(|| {
+        let dir = PathBuf::from(format!("{}/work/ambient-{}", crate::ctx::verif_root(), std::process::id()));
+        let _ = std::fs::create_dir_all(&dir);
+        let mut rng = crate::util::Rng::new(0x5eed_dec0);
+        let mut text = String::new();
+        for (n, pw) in [("alice", "apw"), ("bob", "bpw"), ("peer", "peer-pw"), ("partner", "partner-pw"), ("owner", "pw"), ("mallory", "pw"), ("carol", "pw"), ("initial-one", "init-pw-1")] {
+            text.push_str(&Ident::new(n, pw, &mut rng).entry(true));
+            text.push('\n');
+        }
+        let f = dir.join("decoy-keyring.txt");
+        let _ = std::fs::write(&f, text);
+        f
+    })
+}
+
+pub fn remove_ambient_files() {
+    let _ = std::fs::remove_dir_all(format!("{}/work/ambient-{}", crate::ctx::verif_root(), std::process::id()));
+}
+
 #[derive(Clone, Debug)]
 pub enum Stdin {
     Null,
@@ -66,6 +105,8 @@ pub struct Output {
     pub stderr: Vec<u8>,
     pub maxrss_kb: i64,
     pub wall: Duration,
+    /// user + system CPU time of the child (from wait4): tells a spinning child from a blocked or starved one
+    pub cpu_ms: u64,
 }
 
 impl Output {
@@ -170,6 +211,28 @@ impl Cmd {
         for (k, v) in &self.env {
             c.env(k, v);
         }
+        let mode = std::env::var("KMON_AMBIENT").unwrap_or_default();
+        let is_kestrel = self.bin.file_name().map(|n| n == "kestrel").unwrap_or(false);
+        let ambient = is_kestrel && mode != "never" && (mode == "always" || AMBIENT_TURN.fetch_add(1, Ordering::SeqCst) % 2 == 1);
+        if ambient {
+            let has = |k: &str| self.env.iter().any(|(n, _)| n == k);
+            let arg = |a: &str| self.args.iter().any(|x| x == a);
+            if (arg("-k") || arg("--keyring")) && !has("KESTREL_KEYRING") {
+                c.env("KESTREL_KEYRING", decoy_keyring());
+                AMBIENT_APPLIED[0].fetch_add(1, Ordering::SeqCst);
+            }
+            if !arg("change-pass") && !has("KESTREL_NEW_PASSWORD") {
+                c.env("KESTREL_NEW_PASSWORD", "kmon decoy new password");
+                AMBIENT_APPLIED[1].fetch_add(1, Ordering::SeqCst);
+            }
+            if !has("KMON_UNRELATED") {
+                use std::os::unix::ffi::OsStringExt;
+                c.env("KMON_UNRELATED", OsString::from_vec(vec![b'x', 0xff, 0xfe, b'y']));
+                AMBIENT_APPLIED[2].fetch_add(1, Ordering::SeqCst);
+            }
+        } else if is_kestrel {
+            AMBIENT_PLAIN.fetch_add(1, Ordering::SeqCst);
+        }
         c.current_dir(&self.cwd);
         let mut closed_pipe_keep: Option<i32> = None;
         match &self.stdin {
@@ -245,7 +308,7 @@ impl Cmd {
         let mut child = match c.spawn() {
             Ok(ch) => ch,
             Err(e) => {
-                return Output { exit: Exit::Code(-1), stdout: vec![], stderr: format!("kmon: spawn failed: {}", e).into_bytes(), maxrss_kb: 0, wall: start.elapsed() };
+                return Output { exit: Exit::Code(-1), stdout: vec![], stderr: format!("kmon: spawn failed: {}", e).into_bytes(), maxrss_kb: 0, wall: start.elapsed(), cpu_ms: 0 };
             }
         };
         let pid = child.id() as i32;
@@ -361,7 +424,8 @@ impl Cmd {
             stdout = h.join().unwrap_or_default();
         }
         let stderr = err_t.join().unwrap_or_default();
-        Output { exit, stdout, stderr, maxrss_kb: ru.ru_maxrss as i64, wall: start.elapsed() }
+        let cpu_ms = (ru.ru_utime.tv_sec as u64 + ru.ru_stime.tv_sec as u64) * 1000 + (ru.ru_utime.tv_usec as u64 + ru.ru_stime.tv_usec as u64) / 1000;
+        Output { exit, stdout, stderr, maxrss_kb: ru.ru_maxrss as i64, wall: start.elapsed(), cpu_ms }
     }
 }
 
